@@ -579,6 +579,27 @@ func (vc *FnVC) step(fr *frame, st *state, b *ssa.BasicBlock, ins ssa.Instructio
 		v := fr.get(vc, x.Value)
 		mt := x.Map.Type().Underlying().(*types.Map)
 		vc.oblige("nil-map", vc.descOf(x.Map), st.reach, fmt.Sprintf("(not (= %s 0))", m.t), vc.safetyTags(fr), vc.posOf(x))
+		if fr.spec != nil && fr.spec.InsertOnly != nil {
+			// declared insert-only local map: the key must not be present yet
+			name := ""
+			if u, ok := x.Map.(*ssa.UnOp); ok {
+				switch a := u.X.(type) {
+				case *ssa.Alloc:
+					name = a.Comment
+				case *ssa.FreeVar:
+					name = a.Name()
+				}
+			}
+			if tags, ok := fr.spec.InsertOnly[name]; ok && name != "" {
+				p, _, _ := vc.mapHeaps(mt)
+				present := fmt.Sprintf("(select (select %s %s) %s)", vc.hget(st, p), m.t, vc.term(fr, st, k))
+				tg := tags
+				if len(tg) == 0 {
+					tg = vc.safetyTags(fr)
+				}
+				vc.oblige("insert-only", name, st.reach, fmt.Sprintf("(not %s)", present), tg, vc.posOf(x))
+			}
+		}
 		vc.mapStore(st, mt, m.t, vc.term(fr, st, k), vc.term(fr, st, v))
 	case *ssa.MakeMap:
 		mt := x.Type().Underlying().(*types.Map)
